@@ -777,6 +777,19 @@ Proof.
     apply mT_mI.
 Qed.
 
+(* transpose: det A^T = det A (first-column expansion of A^T = first-row expansion of A) *)
+Lemma detF_mT n : forall A, detF n (mT A) = detF n A.
+Proof.
+  induction n as [|n IH]; intros A; [reflexivity|].
+  rewrite (detF_laplace_row n O A) by lia. rewrite detF_S. apply sum_ext. intros k Hk.
+  cbn [Nat.add]. unfold mT at 1.
+  rewrite (detF_ext n (minor k (mT A)) (mT (minor2 O k A))) by (intros i j _ _; reflexivity).
+  rewrite IH. ring.
+Qed.
+
+Theorem det_mT n A : det n (mT A) = det n A.
+Proof. rewrite !det_detF. apply detF_mT. Qed.
+
 End Det.
 
 (* non-vacuity / sanity: the theorems agree with direct evaluation on a 3x3 instance over Qc *)
